@@ -67,6 +67,10 @@ def blocked_shapes(t):
         for N in Ns:
             for M in Ms:
                 S.add((M, 2, N))
+        n3 = 3 * V                      # the three-vector-wide interior block: M and N multiples of 3 widths, N > 24
+        while n3 <= 24:
+            n3 += 3 * V
+        S.add((3 * V, 3, n3)); S.add((6 * V, 2, n3))
     return S
 
 
